@@ -528,7 +528,12 @@ func callSSA(i *interpreter, caller *frame, callpos token.Pos, fn *ssa.Function,
 	}
 	x.depth++
 	if x.depth > x.maxDepth {
-		panic(pathEnd{"unwind: call depth limit reached (unbounded recursion?) in " + fn.String()})
+		if x.spec > 0 {
+			panic(specAbort{"call depth limit"})
+		}
+		// reported as a crash finding; the native replay decides whether the real program overflows its stack
+		x.concretePanicAt("unbounded recursion: call depth limit " + fmt.Sprint(x.maxDepth) + " exceeded in " + fn.Name())
+		panic(pathEnd{"call depth limit reached in " + fn.String()})
 	}
 	defer func() { x.depth-- }()
 	if x.calls != nil && fn.Pkg != nil && x.inHarness {
